@@ -215,7 +215,7 @@ def run(ctx):
         ctx.ob('C18.3', 'leaf initialiser clears %s over its whole length (%s entries)' % (name, alen), okb,
                'a recycled node that keeps one stale counter carries it into every total it is later summed into', loc=ei.loc)
     ctx.floor('C18.3', 18)
-    rule4_edges(ctx, m, a, s)
+    ctx.attempt(rule4_edges, ctx, m, a, s)
 
 
 # which kind of chain element is the source of each successor edge (dag_recorder_inl.h: the interval opened by
